@@ -118,7 +118,7 @@ func clauseServes(c *sym.Clause, id string) bool {
 // contractServes: a function is under contract for property id when one of its clauses
 // carries the id as name prefix.
 func contractServes(ct *sym.Contract, id string) bool {
-	for _, cs := range [][]*sym.Clause{ct.Requires, ct.Ensures, ct.OnPanic} {
+	for _, cs := range [][]*sym.Clause{ct.Requires, ct.Ensures, ct.OnPanic, ct.Mints, ct.Burns} {
 		for _, c := range cs {
 			if clauseServes(c, id) {
 				return true
@@ -303,7 +303,7 @@ func (e *Engine) RunContracts(pc *PropertyCheck, timeout time.Duration, maxPaths
 // isOtherPropertyClause: the obligation is an ensures/onpanic clause tagged only with other
 // property ids (it is checked by those properties' runs).
 func isOtherPropertyClause(name, id string) bool {
-	for _, kind := range []string{"/ensures:", "/onpanic:", "/rowinv:", "/lemma:"} {
+	for _, kind := range []string{"/ensures:", "/onpanic:", "/rowinv:", "/lemma:", "/mints:", "/burns:", "/cover:"} {
 		i := strings.Index(name, kind)
 		if i < 0 {
 			continue
